@@ -27,6 +27,10 @@ Enc(ns) ==
    <<FnP(Ref("N1", <<>>)), <<Alias("N1", U(Lits(ns)))>>>>,                               \* literal-union alias
    <<TypeLit(<<CallSig(Ref("N2", <<>>))>>), <<Alias("N2", Ref("N1", <<>>)), Alias("N1", U(Lits(ns)))>>>>}
   \cup {<<Ref("E2", <<>>), <<Interface("B1", <<>>, <<CallSig(U(Lits(h[1])))>>), Interface("E2", <<"B1">>, <<CallSig(U(Lits(h[2])))>>)>>>> : h \in Halves(ns)}
+  \cup {<<Ref("E5", <<>>), <<Alias("B5", TypeLit(<<CallSig(U(Lits(h[1])))>>)), Interface("E5", <<"B5">>, <<CallSig(U(Lits(h[2])))>>)>>>> : h \in Halves(ns)}
+  \cup {<<Ref("E6", <<>>), <<Alias("B6", TypeLit([i \in 1..Len(h[1]) |-> Prop(h[1][i], "str", FALSE, TupleT(<<>>))])),
+                            Interface("M6", <<"B6">>, <<>>),
+                            Interface("E6", <<"M6">>, [i \in 1..Len(h[2]) |-> Prop(h[2][i], "str", FALSE, TupleT(<<>>))])>>>> : h \in Halves(ns)}
   \cup {<<InterT(<<FnP(U(Lits(h[1]))), Ref("E3", <<>>)>>), <<Alias("E3", FnP(U(Lits(h[2]))))>>>> : h \in Halves(ns)}
   \cup {<<UnionT(<<FnP(U(Lits(h[1]))), ParenT(FnP(U(Lits(h[2]))))>>), <<>>>> : h \in Halves(ns)}
   \cup {<<FnP(UnionT(<<U(Lits(h[1])), Ref("N3", <<>>)>>)), <<Alias("N3", U(Lits(h[2])))>>>> : h \in Halves(ns)}
